@@ -292,6 +292,25 @@ impl Property for C15 {
             }
             return Scn { guest: None, storm: Some(Storm { base, words, er }), events, cfg: SysCfg { wait_start: false, clock, clock_seed, step_cap: 4000, print_msgs: rng.chance(1, 16), print_opcode: rng.chance(1, 16) }, console_full: rng.chance(1, 12) };
         }
+        // ---- 1 structured run in 1500: more interrupt acceptances in one run than a 16-bit counter holds
+        if rng.chance(1, 1500) {
+            let v = rng.range(1, 63) as u8;
+            let guest = GuestSpec {
+                blocks: vec![Block::SetCcr(0x00), Block::Delay(30)],
+                handlers: vec![Handler { vector: v, kind: if rng.chance(1, 2) { HandlerKind::Empty } else { HandlerKind::Count }, at_zero: false }],
+                code_dram: false,
+                stack_dram: rng.chance(1, 2),
+                data_dram: false,
+                vec_top: rng.u8(),
+                sub_delay: 1,
+                init_ccr: None,
+                stack_off: 0,
+                exit_style: 0,
+            };
+            let n = rng.range(65_540, 66_500) as usize;
+            let events = vec![Event { trig: Trigger::Iter(rng.below(8)), act: Action::Burst(vec![v; n]) }];
+            return Scn { guest: Some(guest), storm: None, events, cfg: SysCfg { wait_start: false, clock, clock_seed, step_cap: 1_200_000, print_msgs: false, print_opcode: false }, console_full: false };
+        }
         // ---- structured: a healthy guest, corrupted while it runs
         let guest = gen_guest(rng);
         let g = guest.assemble().expect("C15 guest must assemble");
@@ -413,6 +432,9 @@ impl Property for C15 {
         }
         add(stats, "fault.landed_inside_handler", obs.in_handler as u64);
         bump(stats, &format!("outcome.{}", run.outcome.class()));
+        if scn.events.iter().any(|e| matches!(&e.act, Action::Burst(v) if v.len() > 65_535)) {
+            bump(stats, "fault.more_than_65535_requests_in_one_run");
+        }
         if storm.is_some() {
             bump(stats, "runs_storm");
             add(stats, "storm_instructions_executed", run.iters.saturating_sub(1));
